@@ -155,7 +155,7 @@ def eval_roundtrip(gtype, fmt, shape, edges, via='stringio', complete=False):
     wtype = 'digraph' if refuse else gtype
     cls = {'simple': G.Graph, 'digraph': G.DirectedGraph, 'dag': G.DirectedGraph, 'bipartite': G.BipartiteGraph}[gtype]
     text2 = None
-    with tempfile.TemporaryDirectory(prefix='c14_') as tmp:
+    with (tempfile.TemporaryDirectory(prefix='c14_') if via != 'stringio' else contextlib.nullcontext('/nonexistent')) as tmp:
         path = os.path.join(tmp, 'g.' + fmt)
         try:
             with _quiet():
@@ -206,10 +206,10 @@ def eval_roundtrip(gtype, fmt, shape, edges, via='stringio', complete=False):
         fmt2, t2 = text2
         out = cnfgen_read(t2, gtype, fmt2)
         if out[0] != 'ok' or out[1] != want:
-            return ('differs', "'save {}' after reading {}: wrote {} , read back {}".format(fmt2, fmt, gr.describe(want), out))
+            return ('differs', "'save {}' after reading {}: wrote {} , read back {}".format(fmt2, fmt, gr.describe(want), out), fmt2)
         v = gr.read(fmt2, t2, gtype)
         if v[0] == 'reject' or (v[0] == 'graph' and v[1] != want):
-            return ('differs', "'save {}' after reading {}: wrote {} , the saved file holds {}".format(fmt2, fmt, gr.describe(want), v))
+            return ('differs', "'save {}' after reading {}: wrote {} , the saved file holds {}".format(fmt2, fmt, gr.describe(want), v), fmt2)
     return None
 
 
@@ -374,9 +374,11 @@ def bounded_roundtrip(ctx):
         ctx.case(('rt', t, fmt, shape, tuple(edges), via, complete), nontrivial=len(edges) > 0 or complete)
         args = dict(gtype=t, fmt=fmt, shape=shape, edges=[list(e) for e in edges], via=via, complete=complete)
         if bad:
-            sub, what = bad
+            sub, what = bad[0], bad[1]
             if sub == 'dag-not-checked':
                 key = 'dag-check:{}:accepted'.format(fmt)
+            elif len(bad) > 2:      # the format of the 'save' step is the one that fails
+                key = 'roundtrip:{}:{}:{}:cli-save'.format(bad[2], t, sub)
             else:
                 key = 'roundtrip:{}:{}:{}'.format(fmt, t, sub) + ('' if via == 'stringio' else ':' + via)
             ctx.violation(key, '{} {} {} {} via {}: {}'.format(t, fmt, shape, sorted(edges), via, what),
